@@ -346,7 +346,9 @@ class SemantivaOrchestrator(ABC):
                         )
                         trace_driver.on_node_event(ser)
 
-                except Exception as exc:
+                except BaseException as exc:
+                    # BaseException: an abort (KeyboardInterrupt, SystemExit) is traced
+                    # like any other node failure and re-raised unchanged below
                     if trace_driver is not None:
                         post_ctx_view = self._context_snapshot(context)
                         context_delta = self._ensure_context_delta(
@@ -410,7 +412,7 @@ class SemantivaOrchestrator(ABC):
 
             if trace_driver is not None:
                 trace_driver.on_pipeline_end(run_token, {"status": "ok"})
-        except Exception as exc:
+        except BaseException as exc:
             if trace_driver is not None:
                 trace_driver.on_pipeline_end(
                     run_token, {"status": "error", "error": str(exc)}
